@@ -1,12 +1,50 @@
-"""C03 — Orders and shipments arrive exactly one lead time later; on-order is exact: correspondence of Sim/Model.v with stockpyl.sim on the observables of C03 + monitors (py/simmon.py) on the implementation's state variables."""
+"""C03 — Orders and shipments arrive exactly one lead time later; on-order is exact: correspondence of Sim/Model.v with stockpyl.sim on the observables of C03 + monitors (py/simmon.py) on the implementation's state variables
++ the reference delay line of C03_shipment_refinement (Sim/ShipDelay.v dl_trace) evaluated in Coq on the shipments and pause flags the
+implementation recorded, against the receipts / held items / pipelines the implementation recorded."""
+from fractions import Fraction
 from vlib import *
-import simmon
+import simlib, simmon
 
 PID = 'C03'
 
 
+def delay_line_stream(chk, mult):
+    """per edge of generated networks: dl_trace L init [(transit paused, receipt paused, sent)_t] (Coq) vs the implementation's (IS, IDI, pipeline)_t"""
+    if mult != 1 or not simmon.ensure_model(chk): return
+    ok, log = coq_make(['Sim/ShipDelay.vo'])
+    if not ok:
+        chk.broken.append(('Sim/ShipDelay.vo', log[-600:])); return
+    n = 40 if chk.tier == 'quick' else 300
+    exprs = []; meta = []
+    for _ in range(n):
+        c = simmon.gen_single(PID, chk.rng, 5, 12, directed=True)
+        try: impl = simlib.run_impl(c)
+        except Exception: continue       # reported by the main stream
+        spec = simmon.spec_single(c, impl['struct']); G = simmon.g_single(impl['recs']); I = simmon.init_record(spec); T = c['T']
+        for (nn, p, r) in simmon.edges_of(spec):
+            s = spec['nodes'][nn]; L = s['slt'] + (s['olt'] if p is None else 0)
+            sent = [(G[t][nn]['supp'][(None, r)]['OQ'] if p is None else G[t][p]['cust'][(nn, r)]['OS']) for t in range(T)]
+            ins = clist(['(%s, %s, %s)' % (cbool(simmon.dis_at(spec, nn, t, 'TP')), cbool(simmon.dis_at(spec, nn, t, 'RP')), cq(sent[t])) for t in range(T)])
+            exprs.append('map (fun x => [[qobs (snd x)]; [qobs (d_held (fst x))]; map qobs (d_pipe (fst x))]) (dl_trace %s {| d_pipe := %s; d_held := 0 |} %s)'
+                         % (cnat(L), cqlist(I[nn]['supp'][(p, r)]['SP']), ins))
+            meta.append((c, nn, p, r, L, [(G[t][nn]['supp'][(p, r)]['IS'], G[t][nn]['supp'][(p, r)]['IDI'], list(G[t][nn]['supp'][(p, r)]['SP'])) for t in range(T)],
+                         any(simmon.dis_at(spec, nn, t, k) for t in range(T) for k in ('TP', 'RP'))))
+    try:
+        vals = coq_eval_sharded('c03dl', 'Sim.Model Sim.ShipDelay', '', exprs, shard=60)
+    except Exception as e:
+        chk.broken.append(('model-evaluation-delay-line', str(e)[-500:])); return
+    for v, (c, nn, p, r, L, rec, paused) in zip(vals, meta):
+        chk.traces += 1; chk.count('delay-line:L=%d' % L); chk.count('delay-line:paused=%s' % paused); chk.count('delay-line:external=%s' % (p is None))
+        mod = [(qv(x[0][0]), qv(x[1][0]), [qv(y) for y in x[2]]) for x in v]
+        if mod != rec:
+            t = next(i for i, (a, b) in enumerate(zip(mod, rec)) if a != b)
+            chk.mismatch('edge %s->%s (lead time %d): reference delay line of Sim/ShipDelay.v fed with the recorded shipments gives (receipt, held, pipeline) = %s in period %d, the implementation recorded %s'
+                         % (p, nn, L, jsonable(mod[t]), t, jsonable(rec[t])), c)
+    chk.extra['delay_line_edges'] = len(meta)
+
+
 def run(chk):
-    simmon.run_property(chk, PID)
+    simmon.run_property(chk, PID, extra=delay_line_stream)
 
 
 def replay(chk, rp):
